@@ -29,6 +29,9 @@ def sh(cmd, **kw):
 
 ENV = ""
 REPO = "/repo"
+# --relevant: which source files a property's check looks at closely enough for a rewrite there to matter to it
+RELEVANT = {"C15": ["remotes.py"], "C17": ["bridge.py"], "C07": ["bridge.py"], "C03": ["api/__init__.py", "messages.py", "device/tools.py", "packets.py"],
+            "C09": ["api/__init__.py", "messages.py"]}
 
 
 def run_check(prop):
@@ -82,6 +85,13 @@ def main():
             print(sid, "patch does not apply", a.stderr)
             continue
         row = {}
+        props_here = props
+        if "--relevant" in args:      # only the checks whose part of the code the change touches
+            touched = re.findall(r"^\+\+\+ b/(\S+)", open(patch).read(), re.M)
+            props_here = [p for p in props if any(t.endswith(x) for t in touched for x in RELEVANT.get(p, [""]))]
+            if not props_here:
+                sh(f"git -C {REPO} checkout -- . && git -C {REPO} clean -fdq -- src")
+                continue
         if "--own" in args or "--props" in args:       # a partial run: the other cells keep what an earlier run put there
             mp0 = os.path.join(V, root, "matrix.json")
             row = dict((json.load(open(mp0)) if os.path.exists(mp0) else {}).get(sid, {}))
@@ -89,7 +99,7 @@ def main():
             # builds are serialised by the checks' own lock; the harness parts run in parallel
             with cf.ThreadPoolExecutor(jobs) as ex:
                 # --own: only the check of the property the change was written against (the other cells keep what an earlier run put there)
-                for prop, rc, replay, nofail, tail in ex.map(run_check, [sid[:3]] if "--own" in args else props):
+                for prop, rc, replay, nofail, tail in ex.map(run_check, [sid[:3]] if "--own" in args else props_here):
                     row[prop] = {"exit": rc, "violation": replay is not None, "concrete_input": replay is not None and not nofail}
                     if rc not in (0, 1):
                         row[prop]["tail"] = tail
